@@ -1,5 +1,6 @@
 """Bounded stand-in (NOT a proof): run-time check of the contract of _load_from_object_storage on generated directory objects.
 Bound: keys of depth <= 4 over a 3-letter alphabet, <= 8 entries per tree; `n` trees per run (seeded)."""
+import logging; logging.disable(logging.CRITICAL)
 import json
 import os
 import random
